@@ -84,7 +84,7 @@ def run(tier, replay):
     s = res[0]
     ctx.cov["evaluations"] += s["evaluations"]
     ctx.cov["distinct_nontrivial"] += s["nontrivial"]
-    ctx.cov["traces_validated_against_impl"] += s["evaluations"] // 3
+    ctx.cov["traces_validated_against_impl"] += s["evaluations"] // 4
     for x in s["samples"]:
         ctx.sample(x, limit=10)
     ctx.add_part("vectors " + kcfg, literals=s["patterns"], evaluations=s["evaluations"], mismatches=s["mismatches"])
@@ -148,8 +148,8 @@ def run(tier, replay):
                 raise vlib.ToolError("binding self-test: a log record with the answer flipped was accepted by Trace_Glob")
         ctx.add_part("binding self-test", corrupted_vector_flagged=(k is not None), corrupted_record_rejected=rejected)
     os.remove(tr)
-    ctx.cov["rule"] = ("all (pattern,text) pairs within the bound, each under 4 symbol mappings x 2 entry points; "
+    ctx.cov["rule"] = ("all (pattern,text) pairs within the bound, each under 6 symbol mappings x 2 entry points; "
                        "non-trivial = distinct pairs whose pattern has a `*` and which match a non-empty text")
     ctx.cov["exhaustive"] = True
-    ctx.assumptions += ["Match(p,t) in Glob.tla is the property's definition", "symbol mappings a->{a,é,😀,?}, b->{b,.} represent 'every other character'"]
+    ctx.assumptions += ["Match(p,t) in Glob.tla is the property's definition", "symbol mappings a->{a,é,😀,?,NUL,U+0001}, b->{b,.,NUL} represent 'every other character'"]
     return ctx.finish()
